@@ -143,10 +143,7 @@ func (e *Engine) ufBody(u *ufSpec) {
 	if len(outs) == 0 {
 		panic(abortPath{"spec function " + u.fn.Name() + " has no return path"})
 	}
-	r := outs[len(outs)-1].v
-	for i := len(outs) - 2; i >= 0; i-- {
-		r = iteVal(e, u.rtype, outs[i].cond, outs[i].v, r)
-	}
+	r := mergeOutcomes(e, u.rtype, outs, 0)
 	u.formals = formals
 	u.body = e.toLeaves(u.rtype, r)[0]
 }
@@ -211,11 +208,16 @@ func (e *Engine) unfoldSpecs(ts []*Term, fuel int) []*Term {
 			if u.body == nil {
 				continue
 			}
-			m := map[string]*Term{}
-			for i, f := range u.formals {
-				m[f.Key()] = a.Args[i]
+			ck := fmt.Sprintf("%d|%s", e.ar.Mode, a.Key())
+			eq, ok := e.unfoldCache[ck]
+			if !ok {
+				m := map[string]*Term{}
+				for i, f := range u.formals {
+					m[f.Name] = a.Args[i]
+				}
+				eq = Eq(a, Subst(u.body, m))
+				e.unfoldCache[ck] = eq
 			}
-			eq := Eq(a, Subst(u.body, m))
 			out = append(out, eq)
 			next = append(next, eq)
 		}
